@@ -318,4 +318,33 @@ theorem C20_exit_generated (p : Pysmi.Cli.StatusMap) :
     Pysmi.Cli.mibdumpExit codes p = 0 ↔ (∀ e ∈ p, e.2 ≠ .missing ∧ e.2 ≠ .failed) :=
   Pysmi.Cli.C20_exit codes (by decide) (by decide) p
 
+/-- **C20_index_guard**: every destination format the script accepts either has a code generator that implements
+`genIndex`, or `--build-index` is refused for it as a usage error (tables regenerated from the script and the generator
+classes on every run) -/
+theorem C20_index_guard : ∀ f ∈ mibdumpFormats, f ∈ genIndexFormats ∨ f ∈ mibdumpNoIndexFormats := by decide
+
+/-- with the regenerated tables: `--build-index` for the pysnmp format ends with the usage status and compiles nothing;
+every other combination ends with status 0 iff nothing is missing or failed -/
+theorem C20_run_generated (buildIndex : Bool) (fmt : String) (p : Pysmi.Cli.StatusMap) :
+    (buildIndex = true ∧ fmt ∈ mibdumpNoIndexFormats →
+      Pysmi.Cli.mibdumpRun codes mibdumpNoIndexFormats buildIndex fmt p = (64, false)) ∧
+    (¬ (buildIndex = true ∧ fmt ∈ mibdumpNoIndexFormats) →
+      ((Pysmi.Cli.mibdumpRun codes mibdumpNoIndexFormats buildIndex fmt p).1 = 0 ↔
+        (∀ e ∈ p, e.2 ≠ .missing ∧ e.2 ≠ .failed))) := by
+  unfold Pysmi.Cli.mibdumpRun
+  constructor
+  · rintro ⟨hb, hf⟩
+    have : mibdumpNoIndexFormats.contains fmt = true := List.contains_iff_mem.mpr hf
+    simp only [hb, this, Bool.and_self, if_true]
+    rfl
+  · intro h
+    have : (buildIndex && mibdumpNoIndexFormats.contains fmt) = false := by
+      cases hb : buildIndex
+      · rfl
+      · cases hc : mibdumpNoIndexFormats.contains fmt
+        · rfl
+        · exact absurd ⟨hb, List.contains_iff_mem.mp hc⟩ h
+    simp only [this, Bool.false_eq_true, if_false]
+    exact C20_exit_generated p
+
 end Pysmi.Generated.Cli
